@@ -287,6 +287,18 @@ func (r *Reconciler) reconcileValidate(ctx context.Context, proposal *configapi.
 					applyChange(path, changeValue)
 				}
 			}
+			// A deleted node takes its whole sub-tree with it: remember the children too, so that a rollback
+			// restores them and not just the explicitly named paths.
+			for path, changeValue := range details.Change.Values {
+				if changeValue.Deleted {
+					for childPath, childValue := range config.Values {
+						if _, ok := rollbackValues[childPath]; !ok && !childValue.Deleted &&
+							controllerutils.IsChildPath(childPath, path) {
+							rollbackValues[childPath] = childValue
+						}
+					}
+				}
+			}
 		case *configapi.Proposal_Rollback:
 			if config.Index != details.Rollback.RollbackIndex {
 				err := errors.NewForbidden("proposal %d is not the latest change to target '%s'", details.Rollback.RollbackIndex, proposal.TargetID)
